@@ -13,6 +13,14 @@
   `faults.pixel`, `faults.pixiter`, `faults.clear`: one call on the drawn-on target (`Pixel::draw` and
   `PixelIteratorExt::draw` are one `draw_iter`; `clear` is one `Call.clear`), lowered by the adapter
   stack to exactly one call on the root (`lowerStack` maps a call to a call).
+
+  `faults.prefix <op of another faults stream>`: additionally the outcome of the error-aware target
+  model (`faultRun`, EG/Model/FaultTarget.lean: recording root with `fail_at`, the adapters with
+  their `Result` plumbing) for the fault-free run and the fault positions 0, n/2, n-1: what `draw`
+  returns, the root's `calls` / `calls_after_error`, the length of its log and the digest of the
+  log's text (`fmt_log` of common.rs) — on the root kind (`native`) and through the adapter stack
+  named in the op, with the colour conversion where the harness stacks one. Kinds without a model
+  here (text, dotted strokes, the other primitives) return `none`.
 -/
 import EG.Driver.Util
 import EG.Model.StyledRect
@@ -21,6 +29,9 @@ import EG.Model.Ellipse
 import EG.Model.RoundedRect
 import EG.Model.Font
 import EG.Model.Adapters
+import EG.Model.FaultTarget
+import EG.Model.ImageRaw
+import EG.Model.Conv
 namespace EG.Driver
 open EG
 
@@ -83,7 +94,147 @@ private def fParsePts (s : String) : List Pt :=
 
 private def answer (cs : List Call) : Option String := some s!"n={cs.length} tested={testedCount cs.length}"
 
+/-! ### `faults.prefix`: the error-aware model on sampled fault positions -/
+
+/-- `Call::fmt` / `Rec::fmt_log` of common.rs -/
+private def pfxFmtCall : Call → String
+  | .drawIter px => "di:" ++ fmtPix px
+  | .fillContiguous a cs => s!"fc:{fmtRect a}:{fmtNats cs}"
+  | .fillSolid a c => s!"fs:{fmtRect a}:{c}"
+  | .clear c => s!"cl:{c}"
+
+private def pfxFmtLog (cs : List Call) : String := joinOr "|" (cs.map pfxFmtCall)
+
+/-- `pfx_entry` of m_faults.rs -/
+private def pfxEntry (o : FRes × RootState) : String :=
+  let res := match o.1 with | .ok _ => "ok" | .error j => s!"err{j}"
+  s!"{res}/{o.2.calls}/{o.2.callsAfterError}/{o.2.log.length}/{strDigest (pfxFmtLog o.2.log)}"
+
+/-- `impl From<BinaryColor> for Rgb565` (Off = black, On = white), as raw values -/
+private def binToRgb565 (c : Color) : Color := if c % 2 == 1 then 65535 else 0
+
+/-- `Rgb565::from(Gray8)` on raw values, from the generated conversion table (C13's model) -/
+private def gray8ToRgb565 (c : Color) : Color :=
+  match Generated.convTable.find? (fun e => e.src == "Gray8" && e.dst == "Rgb565") with
+  | some e => (Conv.convert e c).getD 0
+  | none => 0
+
+/-- the image of a `faults.image` op: data byte `i` = `(i * 37 + 11) as u8`, `ImageRaw::<C>::new` (default data
+order `LittleEndianMsb0`), `s1 = raw.sub_image((1,0) 3x2)`, `s2 = s1.sub_image((1,1) 4x4)`; sub 0 / 1:
+`Image::new(.., (2,3))` of the raw image / of `s1`; sub 2: `Image::with_center(&s2, (2,3))`. -/
+private def faultImage (bits w h sub : Nat) : Option Img.Image :=
+  let bpr := (w * bits + 7) / 8
+  let data := (List.range (bpr * h)).map (fun i => (i * 37 + 11) % 256)
+  match Img.ImageRaw.new bits .le data ⟨w, h⟩ with
+  | .ok raw =>
+    let d0 := Img.Drawable.raw raw
+    let s1 := d0.subImage ⟨⟨1, 0⟩, ⟨3, 2⟩⟩
+    let s2 := s1.subImage ⟨⟨1, 1⟩, ⟨4, 4⟩⟩
+    some (match sub with
+      | 0 => Img.Image.new d0 ⟨2, 3⟩
+      | 1 => Img.Image.new s1 ⟨2, 3⟩
+      | _ => Img.Image.withCenter s2 ⟨2, 3⟩)
+  | .error _ => none
+
+/-- the call list, the adapter stack (root-most first) and the root kind of the wrapped op -/
+private def prefixSubject (stream : String) (t : Toks) : Option (List Call × Stack × Bool) :=
+  if stream == "faults.shape" then
+    let (kind, t) := t.str
+    match kind with
+    | "rect" =>
+      let (r, t) := t.rect
+      let (s, t) := t.fstyle
+      let (adapter, t) := t.nat
+      let (native, _) := t.nat
+      some (StyledRect.drawCalls s r, faultStack adapter, native == 1)
+    | "circle" =>
+      let (p, t) := t.pt
+      let (d, t) := t.nat
+      let (s, t) := t.fstyle
+      let (adapter, t) := t.nat
+      let (native, _) := t.nat
+      some ((⟨p, d⟩ : Circle).drawStyled ⟨s.fill, s.stroke, s.width, s.align⟩, faultStack adapter, native == 1)
+    | "ellipse" =>
+      let (p, t) := t.pt
+      let (sz, t) := t.sz
+      let (s, t) := t.fstyle
+      let (adapter, t) := t.nat
+      let (native, _) := t.nat
+      some ((⟨p, sz⟩ : Ellipse).drawStyled ⟨s.fill, s.stroke, s.width, s.align⟩, faultStack adapter, native == 1)
+    | "rrect" =>
+      let (r, t) := t.rect
+      let (tl, t) := t.sz
+      let (tr, t) := t.sz
+      let (br, t) := t.sz
+      let (bl, t) := t.sz
+      let (s, t) := t.fstyle
+      let (adapter, t) := t.nat
+      let (native, _) := t.nat
+      some ((⟨r, ⟨tl, tr, br, bl⟩⟩ : RoundedRect).drawStyled s, faultStack adapter, native == 1)
+    | _ => none
+  else if stream == "faults.whitespace" then
+    let (fi, t) := t.nat
+    let (mask, t) := t.nat
+    let (bl, t) := t.nat
+    let (width, t) := t.nat
+    let (adapter, t) := t.nat
+    let (native, _) := t.nat
+    match faultFont fi with
+    | some f => some ((f.drawWhitespace (faultStyle mask) width ⟨3, 9⟩ (faultBaseline bl)).1, faultStack adapter, native == 1)
+    | none => none
+  else if stream == "faults.image" then
+    let (bits, t) := t.nat
+    let (w, t) := t.nat
+    let (h, t) := t.nat
+    let (sub, t) := t.nat
+    let (adapter, t) := t.nat
+    let (native, _) := t.nat
+    -- 1 / 8 bpp (BinaryColor / Gray8): `color_converted()` on top of the stack; 16 bpp (Rgb565): the stack alone
+    let conv : Stack := if bits == 1 then [.converted binToRgb565] else if bits == 8 then [.converted gray8ToRgb565] else []
+    match faultImage bits w h sub with
+    | some im => some (im.draw, faultStack (if adapter == 6 then 0 else adapter) ++ conv, native == 1)
+    | none => none
+  else if stream == "faults.pixel" then
+    let (p, t) := t.pt
+    let (c, t) := t.nat
+    let (adapter, t) := t.nat
+    let (native, _) := t.nat
+    -- adapter 6: a `BinaryColor` pixel (`c & 1`) through `color_converted()` on the bare target
+    if adapter == 6 then some ([Call.drawIter [(p, c % 2)]], [.converted binToRgb565], native == 1)
+    else some ([Call.drawIter [(p, c)]], faultStack adapter, native == 1)
+  else if stream == "faults.pixiter" then
+    let (ptsTok, t) := t.str
+    let pts := fParsePts ptsTok
+    let (c, t) := t.nat
+    let (adapter, t) := t.nat
+    let (native, _) := t.nat
+    if adapter == 6 then some ([Call.drawIter (pts.map (fun p => (p, c % 2)))], [.converted binToRgb565], native == 1)
+    else some ([Call.drawIter (pts.map (fun p => (p, c)))], faultStack adapter, native == 1)
+  else if stream == "faults.clear" then
+    let (c, t) := t.nat
+    let (adapter, t) := t.nat
+    let (cc, t) := t.nat
+    let (native, _) := t.nat
+    -- cc = 1: `color_converted()` stacked on top of the adapter stack, colour `BinaryColor::from_num(c & 1)`
+    if cc == 1 then some ([Call.clear (c % 2)], faultStack adapter ++ [.converted binToRgb565], native == 1)
+    else some ([Call.clear c], faultStack adapter, native == 1)
+  else none
+
+private def handleFaultsPrefix (t : Toks) : Option String :=
+  let (inner, t) := t.str
+  match prefixSubject inner t with
+  | none => none
+  | some (cs, stack, native) =>
+    let B : Rect := ⟨⟨-40, -40⟩, ⟨120, 120⟩⟩
+    let ff := faultRun native B stack none cs
+    -- the number of calls the root saw in the fault-free run, as the harness takes it
+    let n := ff.2.calls
+    let ks := (List.range n).filter (fun k => k == 0 || k == n / 2 || k + 1 == n)
+    let parts := ks.map (fun k => s!" k{k}={pfxEntry (faultRun native B stack (some k) cs)}")
+    some s!"n={n} tested={testedCount n} ff={pfxEntry ff}{String.join parts}"
+
 def handleFaults (stream : String) (t : Toks) : Option String :=
+  if stream == "faults.prefix" then handleFaultsPrefix t else
   if stream == "faults.whitespace" then
     let (fi, t) := t.nat
     let (mask, t) := t.nat
